@@ -7,6 +7,7 @@ import (
 	"net"
 	"net/netip"
 	"sort"
+	"strings"
 	"time"
 
 	"github.com/mdlayher/corerad/internal/config"
@@ -41,7 +42,14 @@ func (s State) HW() net.HardwareAddr {
 func (s State) SysRoutes() []system.Route {
 	var out []system.Route
 	for _, r := range s.Routes {
-		out = append(out, system.Route{Prefix: netip.MustParsePrefix(r), Index: 1})
+		// "prefix@pref": the kernel's own preference of the route (high, low, or the
+		// reserved value 2 the legacy ioctl can leave behind); default medium.
+		pref := ndp.Medium
+		if i := strings.IndexByte(r, '@'); i >= 0 {
+			pref = map[string]ndp.Preference{"high": ndp.High, "low": ndp.Low, "reserved": ndp.Preference(2), "medium": ndp.Medium}[r[i+1:]]
+			r = r[:i]
+		}
+		out = append(out, system.Route{Prefix: netip.MustParsePrefix(r), Index: 1, Preference: pref})
 	}
 	return out
 }
